@@ -230,6 +230,302 @@ theorem dup_reserved {s : State} {f : Saved} {fs : List Saved} {n : Bytes} {v : 
   · simp [step, hm, hf, stmt, doLabel, insertConstant, hr, diagnosed]
   · simp [step, hm, hf, stmt, doGlobal, deferConstant, hr, diagnosed]
 
+/-! ## isolation and frame — what one statement (or end-of-file task) can do to the two visible tables
+
+`stmt s op = .ok (s', r)` is the statement itself; `step` only adds the mode change (`do_assemble` stops on `r = some _`),
+which touches no table.  `l` is the current file's table, `s.globals` its includer's table (the real global table for
+the root file). -/
+
+private theorem set_change (l : Table) (n : Bytes) (v : Option Int) (m : Bytes) :
+    (l.set n v).find m = l.find m ∨ (m = n ∧ (l.set n v).find m = some v) := by
+  by_cases h : n = m
+  · subst h; exact .inr ⟨rfl, Table.find_set_same _ _ _⟩
+  · exact .inl (Table.find_set_other _ _ _ _ h)
+
+/-- C14.isolation (own definitions)  `.const n, v` / `n:` change nothing but the entry `n` of the file's own table, which
+becomes `v`; the includer's table is untouched: a definition is visible only in the file that makes it. -/
+theorem isolation_define {s s' : State} {l : Table} {n : Bytes} {v : Int} {tag : Nat} {r : Option Level}
+    (hl : s.locals = some l) (h : stmt s (.const n v tag) = .ok (s', r) ∨ stmt s (.label n v tag) = .ok (s', r)) :
+    s'.globals = s.globals ∧
+    ∃ l', s'.locals = some l' ∧ ∀ m, l'.find m = l.find m ∨ (m = n ∧ l'.find m = some (some v)) := by
+  have key : ∀ {s1 : State} {res : Except CErr Bool}, insertConstant s n v .loc = .ok (s1, res) →
+      s1.globals = s.globals ∧
+      ∃ l', s1.locals = some l' ∧ ∀ m, l'.find m = l.find m ∨ (m = n ∧ l'.find m = some (some v)) := by
+    intro s1 res hi
+    obtain ⟨hg, hc⟩ := insertConstant_loc_char hi
+    refine ⟨hg, ?_⟩
+    rcases hc with hc | ⟨l0, hl0, _, hc⟩
+    · exact ⟨l, by rw [hc, hl], fun m => .inl rfl⟩
+    · rw [hl] at hl0; cases hl0
+      exact ⟨_, hc, set_change l n (some v)⟩
+  rcases h with h | h
+  · simp only [stmt] at h
+    unfold doConst at h
+    split at h
+    · cases h
+    all_goals (rename_i hi; cases h; have hk := key hi; exact hk)
+  · simp only [stmt] at h
+    unfold doLabel at h
+    split at h
+    · cases h
+    all_goals (rename_i hi; cases h; have hk := key hi; exact hk)
+
+/-- C14.isolation (downwards only by `.import`)  `.import n` changes nothing but the entry `n` of the file's own table,
+which becomes the includer's entry for `n` (same value, or still unvalued); the includer's table is untouched. -/
+theorem isolation_import {s s' : State} {l : Table} {n : Bytes} {tag : Nat} {r : Option Level}
+    (hl : s.locals = some l) (h : stmt s (.import n tag) = .ok (s', r)) :
+    s'.globals = s.globals ∧
+    ∃ l', s'.locals = some l' ∧ ∀ m, l'.find m = l.find m ∨ (m = n ∧ l'.find m = s.globals.find n) := by
+  simp only [stmt] at h
+  unfold doImport at h
+  split at h
+  · cases h
+  · cases h; exact ⟨rfl, l, hl, fun m => .inl rfl⟩
+  · rename_i hg
+    have hgf : s.globals.find n = some none := by
+      simp only [getConstant] at hg
+      exact get_deferred (Except.ok.inj hg)
+    have key : ∀ {s1 : State} {res : Except CErr Unit}, deferConstant s n .loc = .ok (s1, res) →
+        s1.globals = s.globals ∧
+        ∃ l', s1.locals = some l' ∧ ∀ m, l'.find m = l.find m ∨ (m = n ∧ l'.find m = s.globals.find n) := by
+      intro s1 res hd
+      obtain ⟨hgl, hc⟩ := deferConstant_loc_char hd
+      refine ⟨hgl, ?_⟩
+      rcases hc with hc | ⟨l0, hl0, _, hc⟩
+      · exact ⟨l, by rw [hc, hl], fun m => .inl rfl⟩
+      · rw [hl] at hl0; cases hl0
+        exact ⟨_, hc, fun m => by rw [hgf]; exact set_change l n none m⟩
+    split at h
+    · cases h
+    · rename_i hd; cases h; have hk := key hd; exact hk
+    · rename_i hd; cases h; have hk := key hd; exact hk
+    · cases h
+  · rename_i v hg
+    have hgf : s.globals.find n = some (some v) := by
+      simp only [getConstant] at hg
+      exact get_found (Except.ok.inj hg)
+    have key : ∀ {s1 : State} {res : Except CErr Bool}, insertConstant s n v .loc = .ok (s1, res) →
+        s1.globals = s.globals ∧
+        ∃ l', s1.locals = some l' ∧ ∀ m, l'.find m = l.find m ∨ (m = n ∧ l'.find m = s.globals.find n) := by
+      intro s1 res hi
+      obtain ⟨hgl, hc⟩ := insertConstant_loc_char hi
+      refine ⟨hgl, ?_⟩
+      rcases hc with hc | ⟨l0, hl0, _, hc⟩
+      · exact ⟨l, by rw [hc, hl], fun m => .inl rfl⟩
+      · rw [hl] at hl0; cases hl0
+        exact ⟨_, hc, fun m => by rw [hgf]; exact set_change l n (some v) m⟩
+    split at h
+    · cases h
+    · rename_i hi; cases h; have hk := key hi; exact hk
+    · rename_i hi; cases h; have hk := key hi; exact hk
+    · cases h
+
+/-- C14.isolation (uses read the file's own table)  `.du32 n` never changes a table; and while a file is open its
+immediate evaluation looks `n` up in that file's table only: a valued entry in range is written at once. -/
+theorem isolation_use {s s' : State} {n : Bytes} {tag : Nat} {r : Option Level}
+    (h : stmt s (.use n tag) = .ok (s', r)) : s'.locals = s.locals ∧ s'.globals = s.globals := by
+  simp only [stmt] at h
+  exact doUse_tables h
+
+theorem isolation_use_local {s : State} {l : Table} {n : Bytes} {v : Int} {tag : Nat}
+    (hd : s.depth ≠ 0) (hl : s.locals = some l) (hr : isReg n = false) (hv : l.find n = some (some v))
+    (h0 : 0 ≤ v) (h1 : v < 4294967296) :
+    stmt s (.use n tag) = .ok ({ s with log := .value tag v 0 :: s.log }, none) := by
+  simp [stmt, doUse, applyUse, hr, State.hasCurrFile, hd, getConstant, hl, Table.get, hv, writeVal, h0, h1]
+
+/-- C14.frame (upwards only by `.export`)  `.export n` leaves the file's own table alone and changes the includer's
+table at most at `n`, where a previously unvalued or absent entry receives the file's own value of `n`. -/
+theorem frame_export {s s' : State} {l : Table} {n : Bytes} {tag : Nat} {r : Option Level}
+    (hl : s.locals = some l) (h : stmt s (.export n tag) = .ok (s', r)) :
+    s'.locals = s.locals ∧ ∀ m, s'.globals.find m = s.globals.find m ∨
+      (m = n ∧ (∀ w, s.globals.find n ≠ some (some w)) ∧
+        ∃ v, l.find n = some (some v) ∧ s'.globals.find m = some (some v)) := by
+  simp only [stmt] at h
+  unfold doExport at h
+  split at h
+  · cases h
+  · cases h; exact ⟨rfl, fun m => .inl rfl⟩
+  · cases h; exact ⟨rfl, fun m => .inl rfl⟩
+  · rename_i v hg
+    have hlf : l.find n = some (some v) := by
+      rw [getConstant_loc hl] at hg
+      exact get_found (Except.ok.inj hg)
+    have key : ∀ {s1 : State} {res : Except CErr Bool}, insertConstant s n v .global = .ok (s1, res) →
+        s1.locals = s.locals ∧ ∀ m, s1.globals.find m = s.globals.find m ∨
+          (m = n ∧ (∀ w, s.globals.find n ≠ some (some w)) ∧
+            ∃ v, l.find n = some (some v) ∧ s1.globals.find m = some (some v)) := by
+      intro s1 res hi
+      obtain ⟨hlo, hc⟩ := insertConstant_glob_char hi
+      refine ⟨hlo, fun m => ?_⟩
+      rcases hc with hc | ⟨hun, hc⟩
+      · rw [hc]; exact .inl rfl
+      · rw [hc]
+        rcases set_change s.globals n (some v) m with h1 | ⟨h1, h2⟩
+        · exact .inl h1
+        · exact .inr ⟨h1, hun, v, hlf, h2⟩
+    split at h
+    · cases h
+    · rename_i hi; cases h; have hk := key hi; exact hk
+    · rename_i hi; cases h; have hk := key hi; exact hk
+    · cases h
+
+/-- C14.frame (upwards by `.global`, end of file)  the closure scheduled by `.global n` leaves the file's own table
+alone and changes the includer's table at most at `n`, where an unvalued entry receives the file's own value. -/
+theorem frame_global_task {s s' : State} {l : Table} {n : Bytes} {tag : Nat} {r : Option Level}
+    (hl : s.locals = some l) (h : runTask s (.globalCopy n tag) = .ok (s', r)) :
+    s'.locals = s.locals ∧ ∀ m, s'.globals.find m = s.globals.find m ∨
+      (m = n ∧ (∀ w, s.globals.find n ≠ some (some w)) ∧
+        ∃ v, l.find n = some (some v) ∧ s'.globals.find m = some (some v)) := by
+  simp only [runTask] at h
+  unfold runGlobalCopy at h
+  split at h
+  · cases h
+  · cases h; exact ⟨rfl, fun m => .inl rfl⟩
+  · cases h; exact ⟨rfl, fun m => .inl rfl⟩
+  · rename_i v hg
+    have hlf : l.find n = some (some v) := by
+      rw [getConstant_loc hl] at hg
+      exact get_found (Except.ok.inj hg)
+    have key : ∀ {s1 : State} {res : Except CErr Bool}, insertConstant s n v .global = .ok (s1, res) →
+        s1.locals = s.locals ∧ ∀ m, s1.globals.find m = s.globals.find m ∨
+          (m = n ∧ (∀ w, s.globals.find n ≠ some (some w)) ∧
+            ∃ v, l.find n = some (some v) ∧ s1.globals.find m = some (some v)) := by
+      intro s1 res hi
+      obtain ⟨hlo, hc⟩ := insertConstant_glob_char hi
+      refine ⟨hlo, fun m => ?_⟩
+      rcases hc with hc | ⟨hun, hc⟩
+      · rw [hc]; exact .inl rfl
+      · rw [hc]
+        rcases set_change s.globals n (some v) m with h1 | ⟨h1, h2⟩
+        · exact .inl h1
+        · exact .inr ⟨h1, hun, v, hlf, h2⟩
+    split at h
+    · cases h
+    · rename_i hi; cases h; have hk := key hi; exact hk
+    · rename_i hi; cases h; have hk := key hi; exact hk
+    · cases h
+
+/-- C14.frame (upwards by `.global`, the statement)  `.global n` changes the file's own table at most at `n` (an absent
+entry becomes "announced") and the includer's table at most at `n`, and only if the includer had no entry: it becomes
+"announced", or at once the file's own value if the file already has one. -/
+theorem frame_global {s s' : State} {l : Table} {n : Bytes} {tag : Nat} {r : Option Level}
+    (hl : s.locals = some l) (h : stmt s (.global n tag) = .ok (s', r)) :
+    (∃ l', s'.locals = some l' ∧ ∀ m, l'.find m = l.find m ∨ (m = n ∧ l.find n = none ∧ l'.find m = some none)) ∧
+    (∀ m, s'.globals.find m = s.globals.find m ∨ (m = n ∧ s.globals.find n = none ∧
+      (s'.globals.find m = some none ∨ ∃ v, l.find n = some (some v) ∧ s'.globals.find m = some (some v)))) := by
+  simp only [stmt] at h
+  unfold doGlobal at h
+  split at h
+  · cases h
+  · rename_i hd; cases h
+    have := deferConstant_error hd; subst this
+    exact ⟨⟨l, hl, fun m => .inl rfl⟩, fun m => .inl rfl⟩
+  · rename_i hd; cases h
+    have := deferConstant_error hd; subst this
+    exact ⟨⟨l, hl, fun m => .inl rfl⟩, fun m => .inl rfl⟩
+  · rename_i s1 hd
+    obtain ⟨h1, h2⟩ := deferConstant_glob_char hd
+    have hl1 : s1.locals = some l := by rw [h1, hl]
+    -- the includer's table after the announcement
+    have hg1 : ∀ m, s1.globals.find m = s.globals.find m ∨
+        (m = n ∧ s.globals.find n = none ∧ s1.globals.find m = some none) := by
+      intro m
+      rcases h2 with h2 | ⟨hn, h2⟩
+      · rw [h2]; exact .inl rfl
+      · rw [h2]
+        rcases set_change s.globals n none m with h3 | ⟨h3, h4⟩
+        · exact .inl h3
+        · exact .inr ⟨h3, hn, h4⟩
+    have hg1n : s.globals.find n = none ∨ s1.globals = s.globals := by
+      rcases h2 with h2 | ⟨hn, _⟩
+      · exact .inr h2
+      · exact .inl hn
+    split at h
+    · cases h
+    · -- the file already has a value: exported at once
+      rename_i v hgc
+      have hlf : l.find n = some (some v) := by
+        rw [getConstant_loc hl1] at hgc
+        exact get_found (Except.ok.inj hgc)
+      split at h
+      · cases h
+      · cases h
+      · cases h
+      · rename_i s2 hi; cases h
+        obtain ⟨h3, h4⟩ := insertConstant_glob_char hi
+        refine ⟨⟨l, by rw [h3, hl1], fun m => .inl rfl⟩, fun m => ?_⟩
+        rcases h4 with h4 | ⟨_, h4⟩
+        · rw [h4]
+          rcases hg1 m with h5 | ⟨h5, h6, h7⟩
+          · exact .inl h5
+          · exact .inr ⟨h5, h6, .inl h7⟩
+        · rw [h4]
+          rcases set_change s1.globals n (some v) m with h5 | ⟨h5, h6⟩
+          · rw [h5]
+            rcases hg1 m with h7 | ⟨h7, h8, h9⟩
+            · exact .inl h7
+            · exact .inr ⟨h7, h8, .inl h9⟩
+          · rcases hg1n with hn | hsame
+            · exact .inr ⟨h5, hn, .inr ⟨v, hlf, h6⟩⟩
+            · -- the announcement failed to change the table only if it errored, which is not this branch
+              unfold deferConstant at hd
+              split at hd
+              · cases hd
+              · simp only at hd
+                split at hd
+                · cases hd
+                · rename_i hfn; exact .inr ⟨h5, hfn, .inr ⟨v, hlf, h6⟩⟩
+    · -- no entry yet: announce locally, schedule the copy
+      rename_i hgc
+      have hlf : l.find n = none := by
+        rw [getConstant_loc hl1] at hgc
+        exact get_notFound (Except.ok.inj hgc)
+      split at h
+      · cases h
+      · cases h
+      · rename_i s2 hd2
+        obtain ⟨h3, h4⟩ := deferConstant_loc_char hd2
+        split at h
+        · cases h
+        · rename_i s3 ha; cases h
+          obtain ⟨h5, h6⟩ := addTask_tables ha
+          constructor
+          · rcases h4 with h4 | ⟨l0, hl0, _, h4⟩
+            · exact ⟨l, by rw [h5, h4, hl1], fun m => .inl rfl⟩
+            · rw [hl1] at hl0; cases hl0
+              refine ⟨_, by rw [h5, h4], fun m => ?_⟩
+              rcases set_change l n none m with h7 | ⟨h7, h8⟩
+              · exact .inl h7
+              · exact .inr ⟨h7, hlf, h8⟩
+          · intro m
+            rw [h6, h3]
+            rcases hg1 m with h7 | ⟨h7, h8, h9⟩
+            · exact .inl h7
+            · exact .inr ⟨h7, h8, .inl h9⟩
+    · -- already announced locally: schedule the copy
+      split at h
+      · cases h
+      · rename_i s3 ha; cases h
+        obtain ⟨h5, h6⟩ := addTask_tables ha
+        refine ⟨⟨l, by rw [h5, hl1], fun m => .inl rfl⟩, fun m => ?_⟩
+        rw [h6]
+        rcases hg1 m with h7 | ⟨h7, h8, h9⟩
+        · exact .inl h7
+        · exact .inr ⟨h7, h8, .inl h9⟩
+
+/-- C14.frame (the other end-of-file task)  a rescheduled `.du32` never changes a table. -/
+theorem frame_use_task {s s' : State} {n : Bytes} {c : Option Int} {tag : Nat} {g : Bool} {r : Option Level}
+    (h : runTask s (.use n c tag g) = .ok (s', r)) : s'.locals = s.locals ∧ s'.globals = s.globals := by
+  simp only [runTask] at h
+  exact runUse_tables h
+
+/-- C14.frame (deep tables)  no statement and no task reaches below the two visible tables: the tables of the
+includer's includer and further out are literally unchanged (`Eff.frames`), so after `enter … exit` only the includer's
+own table can differ. -/
+theorem frame_deep {s s' : State} {op : Op} {r : Option Level} (h : stmt s op = .ok (s', r)) :
+    s'.frames = s.frames ∧ s'.depth = s.depth :=
+  ⟨(eff_stmt h).frames, (eff_stmt h).depth⟩
+
 /-! ## non-vacuity -/
 
 /-- the names of the register file are reserved, case-insensitively; ordinary names are not -/
